@@ -113,6 +113,19 @@ Fixpoint splitlines_go (s : str) (acc : str) (after_cr : bool) : list str :=
   end.
 Definition splitlines (s : str) : list str := splitlines_go s [] false.
 
+(* Python re.split(r"\r\n|\r|\n", s): the only separators are \r\n, \r and \n;
+   always at least one piece ("" -> [""]); a trailing separator yields a final
+   empty piece ("x\n" -> ["x"; ""]).  acc / after_cr as in splitlines_go. *)
+Fixpoint split_nl_go (s : str) (acc : str) (after_cr : bool) : list str :=
+  match s with
+  | [] => [rev acc]
+  | c :: s' =>
+      if after_cr && N.eqb c 10 then split_nl_go s' [] false
+      else if N.eqb c 10 || N.eqb c 13 then rev acc :: split_nl_go s' [] (N.eqb c 13)
+      else split_nl_go s' (c :: acc) false
+  end.
+Definition split_nl (s : str) : list str := split_nl_go s [] false.
+
 Fixpoint mem_chr (c : N) (cs : str) : bool :=
   match cs with [] => false | x :: r => N.eqb c x || mem_chr c r end.
 
